@@ -29,8 +29,38 @@ class BuildError(Exception):
     pass
 
 
+COMP_SKIPPED = set()
+
+
+class _Lock:
+    """serialises the shared build steps (go build, make, re-check of a property file) between checks running at the same time"""
+    depth = 0
+    fh = None
+
+    def __enter__(self):
+        import fcntl
+        if _Lock.depth == 0:
+            os.makedirs(WORK, exist_ok=True)
+            _Lock.fh = open(os.path.join(WORK, 'build.lock'), 'w')
+            fcntl.flock(_Lock.fh, fcntl.LOCK_EX)
+        _Lock.depth += 1
+
+    def __exit__(self, *a):
+        import fcntl
+        _Lock.depth -= 1
+        if _Lock.depth == 0:
+            fcntl.flock(_Lock.fh, fcntl.LOCK_UN)
+            _Lock.fh.close()
+            _Lock.fh = None
+
+
 def build_go(race=False):
     """go build of httpClient from the current working tree with the verif overlay."""
+    with _Lock():
+        return _build_go(race)
+
+
+def _build_go(race=False):
     out = BIN + ('-race' if race else '')
     os.makedirs(out, exist_ok=True)
     env = dict(GOENV, VERIF_REPO=REPO)
@@ -40,13 +70,18 @@ def build_go(race=False):
         args.append('-race')
     p = subprocess.run(args, env=env, capture_output=True, text=True, timeout=600)
     if p.returncode != 0:
-        # a renamed helper used by an optional component overlay is not an alarm: retry without them
-        comp = [f for f in os.listdir(os.path.join(VERIF, 'harness')) if f.startswith('zz_verif_comp')]
-        if comp:
-            env['VERIF_SKIP_OVERLAY'] = ','.join(comp)
+        # a renamed helper used by an optional component overlay is not an alarm: retry without the overlays
+        # the compiler complains about, then without any of them
+        hdir = os.path.join(VERIF, 'harness')
+        comp = sorted(f for _, _, fs in os.walk(hdir) for f in fs if f.startswith('zz_verif_comp'))
+        groups = sorted({f[len('zz_verif_comp_'):].split('.')[0].split('_')[0] for f in comp})
+        blamed = [g for g in groups if ('zz_verif_comp_' + g) in p.stderr]
+        for drop in ([blamed] if blamed and len(blamed) < len(groups) else []) + [groups]:
+            env['VERIF_SKIP_OVERLAY'] = ','.join(f for f in comp if f[len('zz_verif_comp_'):].split('.')[0].split('_')[0] in drop)
             p2 = subprocess.run(args, env=env, capture_output=True, text=True, timeout=600)
             if p2.returncode == 0:
-                log('note: component overlays dropped (they no longer compile):', p.stderr[-500:])
+                log('note: component overlays dropped (they no longer compile):', ' '.join(drop), p.stderr[-500:])
+                COMP_SKIPPED.update(drop)
                 return os.path.join(out, 'rdm'), False
         raise BuildError(p.stderr[-4000:])
     return os.path.join(out, 'rdm'), True
@@ -118,6 +153,11 @@ class Pipe:
 
 def coq_make(targets=None, timeout=1800):
     """full .vo build (never -vos) of the development or of the given targets"""
+    with _Lock():
+        return _coq_make(targets, timeout)
+
+
+def _coq_make(targets=None, timeout=1800):
     mk = os.path.join(COQ, 'Makefile')
     vfiles = sorted(os.path.relpath(os.path.join(d, f), COQ)
                     for sub in ('Base', 'Gen', 'Model', 'Spec', 'Proofs', 'Properties', 'Check')
@@ -146,6 +186,11 @@ def coqc(path, timeout=900, mem_kb=12 * 1024 * 1024):
 
 def check_property_file(pid):
     """re-check Properties/<pid>.v with the kernel; returns (ok, n_theorems, assumptions text, log)"""
+    with _Lock():
+        return _check_property_file(pid)
+
+
+def _check_property_file(pid):
     path = os.path.join('Properties', pid + '.v')
     full = os.path.join(COQ, path)
     if not os.path.exists(full):
@@ -212,6 +257,17 @@ def run_cases(tag, judge, case_terms, shard=120, extra_imports='', timeout=900):
 
     with ThreadPoolExecutor(max_workers=min(WORKERS, max(1, len(files)))) as ex:
         results = list(ex.map(one, files))
+    for path in files:   # compiled case files are never needed again (the sources stay for inspection)
+        base = path[:-2]
+        for ext in ('.vo', '.vos', '.vok', '.glob'):
+            try:
+                os.remove(base + ext)
+            except OSError:
+                pass
+        try:
+            os.remove(os.path.join(os.path.dirname(path), '.' + os.path.basename(base) + '.aux'))
+        except OSError:
+            pass
     verdicts = []
     logs = []
     for sh, (rc, so, se) in zip(shards, results):
@@ -228,6 +284,15 @@ def run_cases(tag, judge, case_terms, shard=120, extra_imports='', timeout=900):
             v[0] = 0
             DRIFT += 1
     return verdicts, logs
+
+
+def cleanup_scratch():
+    """a run against another tree than /repo (VERIF_REPO) leaves nothing behind"""
+    if _TAG:
+        import shutil
+        shutil.rmtree(RUN, ignore_errors=True)
+        shutil.rmtree(BIN, ignore_errors=True)
+        shutil.rmtree(BIN + '-race', ignore_errors=True)
 
 
 def parse_verdicts(out):
